@@ -282,7 +282,7 @@ def run(chk):
             V.tlc_must_finish(r, f"Components {graph}")
             if quick:
                 rng = __import__("random").Random(chk.seed + pi)
-                cases = [c for c in cases if rng.random() < (0.035 if graph != "chain" else 0.1)]
+                cases = [c for c in cases if rng.random() < dict(chain=0.06, multi=0.012, multi_both=0.008, diamond=0.012)[graph]]
             res = V.pmap(execute, [(graph, policy, writable, c, tpl) for c in cases])
             total += len(cases)
             for rr in res:
